@@ -54,16 +54,21 @@ PROPS["C18"] = dict(
 )
 
 PROPS["C10"] = dict(
-    modules=["DdoModel.Props.C10"],
+    modules=["DdoModel.Props.C10", "DdoModel.Props.C10b"],
     theorems=["Ddo.C10.pcmp_spec", "Ddo.C10.dom_strict_order", "Ddo.C10.store_covers_history", "Ddo.C10.store_sub_history",
               "Ddo.C10.dominated_iff", "Ddo.C10.not_dominated_inserts", "Ddo.C10.insert_drops_dominated", "Ddo.C10.store_antichain",
               "Ddo.C10.store_eq_pareto_front", "Ddo.C10.threshold_sound", "Ddo.C10.cmp_of_dominates", "Ddo.C10.query_refines_bucket",
-              "Ddo.C10.query_no_key"],
-    stated_not_proved=["Ddo.C10.DomPruneOk (solver level: enabling the checker never changes the optimum) - watched by the solver correspondence runs, not proved"],
+              "Ddo.C10.query_no_key",
+              "Ddo.C10.dominance_solver_optimal", "Ddo.C10.dominance_same_value", "Ddo.C10.undomOpt_of_sim", "Ddo.C10.admissible_of_sim", "Ddo.C10.undomOpt_of_strict",
+              "Ddo.C10.filterDom_spec", "Ddo.C10.filterDom_protected", "Ddo.C10.compile_storeReach", "Ddo.C10.relaxed_ub_dom", "Ddo.C10.relaxed_cutset_dom", "Ddo.C10.exact_diagram_dom",
+              "Ddo.C10.compile_no_crash_dom", "Ddo.C10.Cyc.finding", "Ddo.C10.Cyc.admissible_not_sufficient", "Ddo.C10.Cyc.with_checker", "Ddo.C10.Cyc.without_checker",
+              "Ddo.C10.Kp.correct", "Ddo.C10.Kp.prunes_across"],
+    stated_not_proved=["sentence 1 for arbitrary value-admissible rules: FALSE (open known finding D13, Cyc.finding)", "Ddo.C10.RelaxedUbAdmStmt (relaxed counterpart of exact_diagram_adm under value-based admissibility)",
+                       "cache + dominance, cutoff, pooled diagrams and the parallel solver with the checker enabled: correspondence + phi (the per-query lemmas query_protected / query_storeAll do not depend on the interleaving)"],
     level_text="Checker part (sentences 2-4 of the property) proved for every query sequence: dominated iff a previously presented state of the same depth and key is >= everywhere and > somewhere; otherwise recorded and everything it dominates dropped; the store is an antichain equal to the Pareto front of the history; the threshold is >= the presented value and sound; the comparator ranks a dominating state first. Solver part (sentence 1) is partial: not a theorem, watched by the solver-level correspondence runs with dominance enabled (engine seq, see C01).",
-    level_note="Partial: sentence 1 (solver-level soundness of dominance pruning across diagrams) is stated (DomPruneOk) but not proved. Hypothesis of the checker theorems: the rule has one dimension per key (the code reads both states with nb_dimensions of the first).",
+    level_note="Sentence 1 is DECIDED in both directions (C10b, 4800 lines of Lean). Negative: with 'admissible' read in the usual value (potential) form - every dominated state has a dominator whose best completion is at least as good - the sentence is false: Cyc.finding is a kernel-checked 4-variable model meeting every hypothesis of the closed solver theorem whose rule is admissible for all value pairs, on which the solver model with the checker enabled stops after one turn with is_exact = true and value 5 while the optimum is 10; the real library does the same in every solver configuration (engine domcyc; open known finding D13): entries recorded by a restricted compilation for nodes it then drops prune the only remaining optimal route of the relaxed compilation when two dominance verdicts cross. Positive: dominance_solver_optimal - for every well-formed model and every rule with a protected optimal strategy (UndomOpt: an optimal family of states closed under some decision of every selectable variable none of which is dominated by a reachable state; implied by the classical simulation condition, undomOpt_of_sim, and by strict admissibility, undomOpt_of_strict) the sequential solver with the shared store of SimpleDominanceChecker terminates with the optimum, a feasible stored solution and the same Completion as without the checker, whatever the history of the store (no contract hypothesis left; the store invariant is simply 'every entry is reached exactly'). Knapsack instance Kp with real pruning inside a layer and across sub-problems. Hypothesis of the checker theorems: the rule has one dimension per key (the code reads both states with nb_dimensions of the first).",
     engines=[dict(name="dom"), dict(name="mdd", label="mdd_clean", args=[]), dict(name="mdd", label="mdd_pooled_long", args=["--pooled", "--long-arcs"]),
-             dict(name="seq", label="seq_dominance", args=["--focus-dominance"])],
+             dict(name="seq", label="seq_dominance", args=["--focus-dominance"]), dict(name="domcyc", no_search=True)],
     trusted_base=TB_COMMON + ["dashmap entry API = finite map", "Vec::retain visits elements in order"],
     assumptions=["dominance rule of uniform dimension per key", "values are isize (InI) for threshold_sound"],
     rule="all query sequences of length <= 3 (quick) / 4 (thorough) over 22 operations (18 (coords, value) combinations on one key, a key-less state, a second key, a second depth, clear_layer), with and without value; random sequences of length 4..150 with 0..3 coordinates, isize extremes, out-of-range depths; comparator evaluated on all pairs of the first six presented entries; concurrent phases; non-trivial = a dominated verdict, a clear or a panic occurred; distinct = distinct sequence",
